@@ -26,6 +26,7 @@ import (
 	"github.com/brutella/hc/hap/endpoint"
 	hclog "github.com/brutella/hc/log"
 	"github.com/brutella/hc/verifshim/vsync"
+	"github.com/brutella/hc/verifshim/vyield"
 
 	"verif/internal/refctl"
 	"verif/internal/sched"
@@ -442,12 +443,20 @@ func installHooks(S *sched.Sched) {
 			S.Point(nil)
 		}
 	}
+	if statementLevel() {
+		// in the binary whose hc packages carry a scheduling point before every statement: those points too
+		vyield.Hook = hclog.VerifYield
+	}
 }
+
+// statementLevel: PSCHED_STATEMENTS=1 asks for statement-level scheduling points (preemption bound 1).
+func statementLevel() bool { return os.Getenv("PSCHED_STATEMENTS") == "1" }
 
 func removeHooks() {
 	vsync.HookLock, vsync.HookUnlock, vsync.HookRLock, vsync.HookRUnlock = nil, nil, nil, nil
 	vsync.HookCondWait, vsync.HookActive = nil, nil
 	hclog.VerifYield = nil
+	vyield.Hook = nil
 }
 
 // execute runs one schedule of a scenario.
@@ -538,6 +547,10 @@ func Main(args []string) {
 			return
 		}
 		for _, sc := range scenarios(true) {
+			if sc.name+" [statement-level scheduling points]" == cas.Scenario {
+				sc.name = cas.Scenario
+				os.Setenv("PSCHED_STATEMENTS", "1")
+			}
 			if sc.name == cas.Scenario {
 				sr := ScenarioReport{Name: sc.name, Bound: cas.Bound, Exhaustive: true}
 				execute(args[1], sc, cas.Schedule, rep, &sr, map[string]bool{})
@@ -564,6 +577,10 @@ func Main(args []string) {
 	for _, sc := range scenarios(thorough) {
 		if !strings.Contains(sc.props, prop) {
 			continue
+		}
+		if statementLevel() {
+			sc.bound = 1
+			sc.name += " [statement-level scheduling points]"
 		}
 		n++
 		if parts > 1 && n%parts != part {
